@@ -207,7 +207,9 @@ func verify(t treeSpec, cfg runCfg, ex expectation, snap map[string]snapEnt, exi
 				add("file-deleted:"+e.Why, p, "")
 			}
 		case s.Sum != sum(e.Data):
-			if e.Why == "generated" {
+			if o, had := t.Files[p]; had && e.Why == "generated" && s.Sum == sum(o.Data) {
+				add("stale-sibling-not-regenerated", p, "the pre-existing _templ.go was left as it was")
+			} else if e.Why == "generated" {
 				add("generated-content-differs", p, "sibling differs from single-file reference generation: "+firstDiff(s.Data, e.Data))
 			} else {
 				add("file-modified:"+e.Why, p, firstDiff(s.Data, e.Data))
@@ -326,10 +328,22 @@ func runTempl(bin, root, logDir string, cfg runCfg) runOut {
 		// canonical signature: the top frame of each of the two conflicting accesses
 		var tops []string
 		for _, sec := range strings.Split(blk, "\n\n") {
-			if m := reRaceFn.FindStringSubmatch(sec); m != nil && len(tops) < 2 &&
-				(strings.Contains(sec, " at 0x") || strings.Contains(sec, "by goroutine") || strings.Contains(sec, "by main")) {
-				tops = append(tops, m[1])
+			t := strings.TrimSpace(sec)
+			if !(strings.HasPrefix(t, "Read at") || strings.HasPrefix(t, "Write at") || strings.HasPrefix(t, "Previous read at") || strings.HasPrefix(t, "Previous write at")) || len(tops) >= 2 {
+				continue
 			}
+			// the innermost frame inside templ's own code names the racing site
+			fn := ""
+			for _, m := range reRaceFn.FindAllStringSubmatch(sec, -1) {
+				if fn == "" {
+					fn = m[1]
+				}
+				if strings.HasPrefix(m[1], "github.com/a-h/templ") {
+					fn = m[1]
+					break
+				}
+			}
+			tops = append(tops, fn)
 		}
 		sort.Strings(tops)
 		ro.races = append(ro.races, strings.Join(tops, " <-> "))
@@ -518,7 +532,7 @@ func Run(c *core.Ctx) {
 		return
 	}
 
-	nTrees := c.Pick(14, 400)
+	nTrees := c.Pick(10, 150)
 	maxTempl := 60
 	workers := []int{1, 2, 3, 8, 16, 64}
 	procs := []int{1, 2, 16}
@@ -593,7 +607,7 @@ func Run(c *core.Ctx) {
 	var sigMu sync.Mutex
 	var wg sync.WaitGroup
 	ch := make(chan job)
-	for p := 0; p < 6; p++ {
+	for p := 0; p < 10; p++ {
 		wg.Add(1)
 		go func() {
 			defer wg.Done()
